@@ -24,6 +24,10 @@ WITNESS = {
     # with that context, the application's TRUNCATE checkpoint is no longer blocked, the uncopied frame is gone
     "Q1": [["LsOpen", "new"], ["AppGrowWrite"], ["LsSync"], ["AppWrite", 2], ["AppCheckpoint", "TRUNCATE"], ["AppWrite", 3], ["LsSyncAndWait"],
            ["AppWrite", 4], ["AppCheckpoint", "RESTART"], ["AppWrite", 5], ["LsSyncAndWait"], ["LsClose"]],
+    # Q2: the context of a checkpoint is cancelled after it released the read transaction (parked at chk.read-released): the PRAGMA
+    # fails and the deferred re-acquisition must still succeed, or the application's TRUNCATE checkpoint destroys uncopied frames
+    "Q2": [["LsOpen", "new"], ["AppWrite", 1], ["LsSyncAndWait"], ["CkStart", "PASSIVE"], ["CkStep"], ["CkStep"], ["CkCancel"], ["CkStep"],
+           ["LsSyncAndWait"], ["AppWrite", 2], ["AppCheckpoint", "TRUNCATE"], ["AppWrite", 3], ["LsSyncAndWait"], ["LsClose"]],
     "F3": [["LsOpen", "new"]] + [["AppGrow", 1], ["LsSyncAndWait"]] * 5 + [["LsReset"], ["AppWrite", 3], ["LsSyncAndWait"]],
 }
 
@@ -31,12 +35,13 @@ PLANS = {
     "C01": dict(
         mc=[("MC_Core_q.cfg", "code as it is: pages 3, versions 2, WAL 4, TXIDs 5, gens 4, 1 down, all checkpoint modes, checkpoint sub-steps interleaved with the application")],
         mc_thorough=[("MC_Core_asis.cfg", "same with versions 3"), ("MC_Core_asis4.cfg", "same with versions 4"), ("MC_Core_pinned.cfg", "NEGATIVE CONTROL: the pinned transitions (before the fix: commits) - TLC must find the F1/F2/G1 data-loss histories"),
-                     ("MC_Core_q1.cfg", "NEGATIVE CONTROL: read transaction bound to a request context (Q1, before its fix) - TLC must find the data-loss history")],
+                     ("MC_Core_q1.cfg", "NEGATIVE CONTROL: read transaction bound to a request context (Q1, before its fix) - TLC must find the data-loss history"),
+                     ("MC_Core_q2.cfg", "NEGATIVE CONTROL: read transaction not re-acquired after a checkpoint whose context was cancelled (Q2, before its fix)")],
         sim=[("Sim_Core_run.cfg", 80, 600, 40), ("Sim_Core_gated.cfg", 100, 900, 45)],
         dump=("Dump_Core.cfg", 250, 2500),
         random=dict(n=80, n_thorough=800, length=28, with_down=False, with_state_loss=False),
         invariants=["C01_RestoreEqualsSource", "C01_RestoreIntegrity"],
-        witnesses=["F1", "F2", "F3", "G1", "S1", "Q1"],
+        witnesses=["F1", "F2", "F3", "G1", "S1", "Q1", "Q2"],
         nontrivial="distinct schedule with at least one acknowledgement after application writes (restore compared with the source)",
     ),
     "C04": dict(
@@ -47,7 +52,7 @@ PLANS = {
         random=dict(n=200, n_thorough=1200, length=34, with_down=True, with_state_loss=True),
         directed=True,
         invariants=["C04_AckMeansReplicaAtLocalPos", "C04_ResnapshotAfterLoss", "C01_RestoreEqualsSource"],
-        witnesses=["F1", "F2", "F3", "S1", "Q1"],
+        witnesses=["F1", "F2", "F3", "S1", "Q1", "Q2"],
         nontrivial="distinct schedule in which litestream was stopped/reset/lost state and application activity happened before the next acknowledgement",
     ),
     "C02": dict(
